@@ -94,7 +94,12 @@ NSX_CFG = {
 # objects on the manager whose ids lack the Netspoc prefix: outside Netspoc's scope (C07)
 NSX_FOREIGN = {
     "groups": [{"id": "Custom-g", "expression": [{"id": "x1", "resource_type": "IPAddressExpression",
-                                                   "ip_addresses": ["10.7.7.7"]}]}],
+                                                   "ip_addresses": ["10.7.7.7"]}]},
+               # unreferenced objects whose id only CONTAINS the prefix, or spells it in lower case
+               {"id": "Backup-Netspoc-g0", "expression": [{"id": "x2", "resource_type": "IPAddressExpression",
+                                                            "ip_addresses": ["10.1.1.10"]}]},
+               {"id": "netspoc-lower", "expression": [{"id": "x3", "resource_type": "IPAddressExpression",
+                                                        "ip_addresses": ["10.7.7.8"]}]}],
     "policies": [{"id": "Custom-v1", "resource_type": "GatewayPolicy", "rules": [
         {"resource_type": "Rule", "id": "c1", "scope": ["/infra/tier-0s/v1"], "direction": "OUT",
          "ip_protocol": "IPV4", "sequence_number": 10, "action": "ALLOW",
@@ -102,7 +107,10 @@ NSX_FOREIGN = {
          "services": ["/infra/services/Custom-s"]}]}],
     "services": [{"id": "Custom-s", "service_entries": [
         {"id": "id", "resource_type": "L4PortSetServiceEntry", "l4_protocol": "TCP",
-         "destination_ports": ["81"], "source_ports": []}]}],
+         "destination_ports": ["81"], "source_ports": []}]},
+        {"id": "Old-Netspoc-tcp_81", "service_entries": [
+            {"id": "id", "resource_type": "L4PortSetServiceEntry", "l4_protocol": "TCP",
+             "destination_ports": ["81"], "source_ports": []}]}],
 }
 API_KEY = "LUFRPT1kZq9/Xy7vTT=="         # `/` and `=` have URL-encoded forms (the tool inserts the key unescaped)
 HTTPS_TYPES = ("panos", "nsx")
